@@ -6,10 +6,11 @@ import Lean.Data.Json
 import PM
 import Driver.Codec
 import Driver.Base
+import Driver.ExtRange
 open Lean (Json)
 open PM PM.Codec
 
-def extHandlers : List (St → String → Json → Option (D (St × Json))) := []
+def extHandlers : List (St → String → Json → Option (D (St × Json))) := [handleRange]
 
 def handleExt (st : St) (op : String) (j : Json) : D (St × Json) :=
   match extHandlers.findSome? (fun h => h st op j) with
